@@ -15,7 +15,7 @@ from ..lean import Driver, hx, unhx
 
 LEVEL_NOTE = ("modelled, not verified: urllib.parse.quote/unquote, text-mode decoding, strptime/strftime of "
               "CPython 3.12.1 as encoded in Model/Codec.lean and Model/Date.lean; dates with non-ASCII digits "
-              "and percent-decoded values that are not UTF-8 are outside the modelled domain")
+              "and percent-decoded values that are not UTF-8 are outside the modelled domain; C03Cmd (whole runs of trash-put): put_home_info_conformant(_existing), put_volume_info_relative(_top), put_custom_info_base (the info file written IS formatTrashinfo of the location - absolute in the home trash, relative to $topdir in a volume directory - satisfies C03.Holds and parses back to that location and date), reader_join, put_then_info_own_location, put_custom_info_base_spelling_matters (a --trash-dir spelled through a link records relative to the lexical volume: real behaviour)")
 RULE = ("exhaustive: every byte 1-255 except '/' alone and inside a name, every ordered pair of 40 interesting "
         "bytes, depths 1-4, 255-byte names, paths of 2-15 such names (ASCII, UTF-8, escaped, invalid UTF-8: up to 7.6 KB once escaped), 64 boundary dates; then seeded random byte strings and random "
         "foreign .trashinfo contents; a case is non-trivial when it reaches the writer or a reader and distinct "
